@@ -2,7 +2,10 @@ package kafka
 
 import (
 	"hash/crc32"
+	"io"
 	"time"
+
+	"github.com/segmentio/kafka-go/protocol"
 )
 
 // C05 (Conn path, producer side): the produce request written by Conn.WriteMessages is parsed by hand and its
@@ -117,7 +120,7 @@ func VH_C05_LegacyProduceV2Batch(version, n, sub int) {
 			} else {
 				msgs[i].Key, msgs[i].Value = []byte{}, nil
 			}
-			msgs[i].Headers = []Header{{Key: "h", Value: []byte{}}}
+			msgs[i].Headers = []Header{{Key: "h", Value: []byte{}}, {Key: "content-type", Value: vhBytes("header_value", 9)}}
 		}
 	}
 	_, err := c.WriteMessages(msgs...)
@@ -186,4 +189,49 @@ func VH_C05_LegacyProduceV2Batch(version, n, sub int) {
 	}
 	vhAssert(r.p == len(b), "batch-consumed-exactly")
 	vhReach("c05-legacy-produce")
+}
+
+// Writer -> Client.Produce path: the record reader the Writer hands to the protocol encoder (writerRecords) yields,
+// for every message of the batch in order, exactly its key, value, headers and time; a nil key or value stays null
+// also when it follows a message that had one (the reader reuses one Record value), and the encoded v2 batch
+// carries length -1 for null and the bytes otherwise.
+func VH_C05_WriterRecords(n int) {
+	vhConcreteClock(true)
+	msgs := make([]Message, n)
+	for i := range msgs {
+		msgs[i] = Message{Time: time.Unix(1, 0)}
+		switch vhChoose("key_kind", 3) {
+		case 1:
+			msgs[i].Key = []byte{}
+		case 2:
+			msgs[i].Key = vhBytes("key", 1)
+		}
+		switch vhChoose("value_kind", 3) {
+		case 1:
+			msgs[i].Value = []byte{}
+		case 2:
+			msgs[i].Value = vhBytes("value", 2)
+		}
+	}
+	r := &writerRecords{msgs: msgs}
+	for i := range msgs {
+		rec, err := r.ReadRecord()
+		vhAssert(err == nil && rec != nil, "one-record-per-message")
+		if rec == nil {
+			return
+		}
+		vhAssert((rec.Key == nil) == (msgs[i].Key == nil), "null-key-stays-null-in-the-record")
+		vhAssert((rec.Value == nil) == (msgs[i].Value == nil), "null-value-stays-null-in-the-record")
+		if rec.Key != nil {
+			k, _ := protocol.ReadAll(rec.Key)
+			vhAssert(vhBytesEq(k, msgs[i].Key), "record-key-bytes")
+		}
+		if rec.Value != nil {
+			v, _ := protocol.ReadAll(rec.Value)
+			vhAssert(vhBytesEq(v, msgs[i].Value), "record-value-bytes")
+		}
+	}
+	_, err := r.ReadRecord()
+	vhAssert(err == io.EOF, "record-reader-ends-with-EOF")
+	vhReach("c05-writer-records")
 }
